@@ -6,6 +6,7 @@ import (
 	"go/constant"
 	"go/token"
 	"go/types"
+	"strconv"
 	"math/big"
 	"sort"
 	"strings"
@@ -897,4 +898,108 @@ func basicOfKind(k string) *types.Basic {
 		return types.Typ[bk]
 	}
 	return nil
+}
+
+// ---- C16.R6 the integer parsers, folded ----
+
+// intDecoder.parseInt and uintDecoder.parseUint turn the bytes of an integer token into a number: a length test, a
+// comparison with the largest literal, a loop over a power-of-ten table. They are folded for a family of integer
+// tokens (every token of up to three digits, with and without sign; every token obtained from the boundary
+// literals of the 8-, 16-, 32- and 64-bit ranges by changing one digit; the same one digit longer and shorter) and
+// compared with strconv.ParseInt / ParseUint of the analyser's standard library: the same value when strconv
+// accepts, an error exactly when strconv reports a range error.
+func c16r6(rc *core.RC) {
+	p := rc.P
+	var tokens []string
+	for n := 0; n < 1000; n++ {
+		tokens = append(tokens, strconv.Itoa(n))
+	}
+	for _, b := range []string{"127", "128", "255", "256", "32767", "32768", "65535", "65536", "2147483647", "2147483648", "4294967295", "4294967296",
+		"999999999999999999", "1000000000000000000", "9223372036854775807", "9223372036854775808", "9223372036854775809", "9999999999999999999",
+		"18446744073709551615", "18446744073709551616", "18446744073709551609", "19999999999999999999", "99999999999999999999", "10000000000000000000",
+		"100000000000000000000", "184467440737095516150", "92233720368547758070"} {
+		tokens = append(tokens, b)
+		for i := 0; i < len(b); i++ {
+			for d := byte('0'); d <= '9'; d++ {
+				if i == 0 && d == '0' {
+					continue
+				}
+				v := []byte(b)
+				v[i] = d
+				tokens = append(tokens, string(v))
+			}
+		}
+	}
+	type target struct {
+		name   string
+		signed bool
+	}
+	n := 0
+	for _, tg := range []target{{"intDecoder.parseInt", true}, {"uintDecoder.parseUint", false}} {
+		fd := p.Func("decoder", tg.name)
+		key := "decoder." + tg.name + "/agrees-with-strconv"
+		if fd == nil || fd.Body == nil || fd.Type.Params.NumFields() != 1 {
+			rc.Unknown(key, token.NoPos, "not found")
+			continue
+		}
+		n++
+		rc.Touch(p.FuncName(fd))
+		info := p.Info(fd)
+		arg := info.Defs[fd.Type.Params.List[0].Names[0]]
+		bp := &core.BytePred{P: p, Strings: map[types.Object][]byte{}}
+		var bad []string
+		count := 0
+		undecided := ""
+		for _, tk := range tokens {
+			variants := []string{tk}
+			if tg.signed {
+				variants = append(variants, "-"+tk)
+			}
+			for _, s := range variants {
+				bp.Steps = 0
+				bp.Strings[arg] = []byte(s)
+				_, _, done, ok := bp.ExecList(info, fd.Body.List, core.BindAll(nil))
+				if !ok || !done || len(bp.Results) != 2 {
+					undecided = s
+					break
+				}
+				count++
+				gotVal, gotErr := bp.Results[0], bp.Results[1] != 0
+				var wantVal int64
+				var wantErr bool
+				if tg.signed {
+					v, err := strconv.ParseInt(s, 10, 64)
+					wantVal, wantErr = v, err != nil
+				} else {
+					v, err := strconv.ParseUint(s, 10, 64)
+					wantVal, wantErr = int64(v), err != nil
+				}
+				if gotErr != wantErr || (!wantErr && gotVal != wantVal) {
+					if len(bad) < 6 {
+						if tg.signed {
+							bad = append(bad, fmt.Sprintf("%s -> %d, error=%v (strconv: %d, error=%v)", s, gotVal, gotErr, wantVal, wantErr))
+						} else {
+							bad = append(bad, fmt.Sprintf("%s -> %d, error=%v (strconv: %d, error=%v)", s, uint64(gotVal), gotErr, uint64(wantVal), wantErr))
+						}
+					}
+				}
+			}
+			if undecided != "" {
+				break
+			}
+		}
+		if undecided != "" {
+			rc.Unknown(key, fd.Pos(), "%s could not be folded for the token %s", tg.name, undecided)
+			continue
+		}
+		rc.Check(len(bad) == 0, key, fd.Pos(), "%s, folded for %d integer tokens (all of up to three digits, and the one-digit neighbourhoods of the range boundaries up to 21 digits), yields the value strconv yields and an error exactly for the tokens outside the 64-bit range%s", tg.name, count, func() string {
+			if len(bad) == 0 {
+				return ""
+			}
+			return "; differs: " + strings.Join(bad, "; ")
+		}())
+	}
+	if n < 2 {
+		rc.Unknown("decoder/integer-parsers", token.NoPos, "found %d of parseInt and parseUint", n)
+	}
 }
